@@ -827,19 +827,17 @@ class PhaseField(_IModel):
             mat_e_pg = np.asarray(matrix_e_pg)
             Id_e_pg = np.asarray(I_e_pg)
 
-            g_e_pg = I1_e_pg**2 - 3 * I2_e_pg
-            # g = 3/2 ||dev||^2 >= 0: round-off can make it slightly negative, and a tensor is
-            # treated as spherical when its deviator is negligible against the tensor itself.
+            # g = I1^2 - 3 I2 = 3/2 dev:dev and (2 I1^3 - 9 I1 I2 + 27 I3)/2 = 27/2 det(dev) are taken
+            # from the deviator: the invariant forms cancel to round-off noise (~1e-16 I1^2) exactly
+            # where the cases have to be told apart. A tensor is treated as spherical when its
+            # deviator is negligible against the tensor itself.
+            dev_e_pg = mat_e_pg - (I1_e_pg / 3)[..., np.newaxis, np.newaxis] * Id_e_pg
+            g_e_pg = 3 / 2 * np.einsum("...ij,...ij->...", dev_e_pg, dev_e_pg)
             g_neq_0 = g_e_pg > 1e-24 * scale_e_pg
             g_e_pg = np.where(g_neq_0, g_e_pg, 1.0)
             sqrt_g_e_pg = np.sqrt(g_e_pg)
 
-            arg = (
-                1
-                / 2
-                * (2 * I1_e_pg**3 - 9 * I1_e_pg * I2_e_pg + 27 * I3_e_pg)
-                / g_e_pg ** (3 / 2)
-            )
+            arg = 27 / 2 * np.asarray(Det(dev_e_pg)) / g_e_pg ** (3 / 2)
             arg = np.clip(np.where(g_neq_0, arg, 0.0), -1, 1)
 
             # Lode's angle such that 0 <= theta <= pi/3
@@ -866,6 +864,14 @@ class PhaseField(_IModel):
             I_rg = 1 / 3 * (I1_e_pg - sqrt_g_e_pg)[..., np.newaxis, np.newaxis] * Id_e_pg
             inv_sqrt_g = (g_e_pg ** (-1 / 2))[..., np.newaxis, np.newaxis]
 
+            def rank_one_in_plane(E):
+                """u u^T for a unit vector u of the plane E projects on (E: (n, 3, 3) rank-two projectors).
+                u is the normalised column of E of largest norm (||E[:, k]||^2 = E[k, k])."""
+                k = np.argmax(np.einsum("nii->ni", E), axis=1)
+                u = E[np.arange(E.shape[0]), :, k]
+                u = u / np.linalg.norm(u, axis=1, keepdims=True)
+                return np.einsum("ni,nj->nij", u, u)
+
             # The cases are told apart per (element, gauss point), with a tolerance on cos(3 theta):
             # exact comparisons on arccos(...) miss every repeated eigenvalue that is not exactly
             # representable, and then divide by a vanishing eigenvalue gap.
@@ -889,8 +895,9 @@ class PhaseField(_IModel):
                     1 / 3 * (I1_e_pg + sqrt_g_e_pg)[..., np.newaxis, np.newaxis] * Id_e_pg
                 )
                 M1[case2] = (inv_sqrt_g * (I_rg2 - mat_e_pg))[case2]
-                # M2[case2] = 1 / 2 * (I_e_pg - M1)[case2]
-                M3[case2] = 1 / 2 * (Id_e_pg - M1)[case2]
+                # the repeated eigenvalue has a plane of eigenvectors: any orthonormal pair of it gives
+                # the two rank-one projectors the spectral decomposition needs
+                M3[case2] = rank_one_in_plane(Id_e_pg[case2] - M1[case2])
 
                 tic.Tac("Split", "proj case 2", False)
 
@@ -908,7 +915,7 @@ class PhaseField(_IModel):
                 val3_e_pg[case3] += 2 / 3 * sqrt_g_e_pg[case3]
 
                 M3[case3] = (inv_sqrt_g * (mat_e_pg - I_rg))[case3]
-                M1[case3] = 1 / 2 * (Id_e_pg - M3)[case3]
+                M1[case3] = rank_one_in_plane(Id_e_pg[case3] - M3[case3])
                 # M2[case3] = 1 / 2 * (I_e_pg - M3)[case3]
 
                 tic.Tac("Split", "proj case 3", False)
@@ -1158,9 +1165,20 @@ class PhaseField(_IModel):
             v2_m_v3 = val_e_pg[..., 1] - val_e_pg[..., 2]
             v2_m_v3[v2_m_v3 == 0] = 1
 
-            thetap[..., 0] = (valp[..., 0] - valp[..., 1]) / (2 * v1_m_v2)
-            thetap[..., 1] = (valp[..., 0] - valp[..., 2]) / (2 * v1_m_v3)
-            thetap[..., 2] = (valp[..., 1] - valp[..., 2]) / (2 * v2_m_v3)
+            # theta_ab = (e_a^+ - e_b^+) / (2 (e_a - e_b)); for a repeated eigenvalue its limit d_a^+ / 2
+            # (the initial value) is kept.
+            dif12 = np.asarray(val_e_pg[..., 0] != val_e_pg[..., 1])
+            dif13 = np.asarray(val_e_pg[..., 0] != val_e_pg[..., 2])
+            dif23 = np.asarray(val_e_pg[..., 1] != val_e_pg[..., 2])
+            thetap[..., 0] = np.where(
+                dif12, (valp[..., 0] - valp[..., 1]) / (2 * v1_m_v2), thetap[..., 0]
+            )
+            thetap[..., 1] = np.where(
+                dif13, (valp[..., 0] - valp[..., 2]) / (2 * v1_m_v3), thetap[..., 1]
+            )
+            thetap[..., 2] = np.where(
+                dif23, (valp[..., 1] - valp[..., 2]) / (2 * v2_m_v3), thetap[..., 2]
+            )
 
             # [Remark M]
             # thetam[..., 0] = (valm[..., 0] - valm[..., 1]) / (2 * v1_m_v2)
